@@ -383,9 +383,13 @@ def saw_counts(ctx):
             pref_of = lambda i: pref_arg[min(i, len(pref_arg) - 1)]
         c20.RECORD.clear()
         saw = SingleAnnotatorWrapper(Rec(random_state=seed), random_state=seed)
-        rc = {"X": X.tolist(), "y": [[None if v != v else v for v in r] for r in y], "batch_size": bs, "n_annotators_per_sample": pref_arg, "seed": seed}
+        # annotator performances: not given, or accuracies that include exact 0.0 and 1.0 (per annotator / per pair)
+        A_perf = None if h % 3 == 0 else rng.choice([0.0, 1.0, 0.5, 1.0, 0.0], size=((na,) if h % 3 == 1 else (n, na)))
+        rc = {"X": X.tolist(), "y": [[None if v != v else v for v in r] for r in y], "batch_size": bs, "n_annotators_per_sample": pref_arg, "seed": seed,
+              "A_perf": None if A_perf is None else A_perf.tolist()}
         try:
             pairs = with_timeout(lambda: saw.query(X=X, y=y, batch_size=bs, n_annotators_per_sample=pref_arg if isinstance(pref_arg, int) else np.array(pref_arg),
+                                                   A_perf=None if A_perf is None else A_perf.copy(),
                                                    clf=ParzenWindowClassifier(classes=[0, 1], random_state=seed)), 5.0)
         except CaseTimeout:
             ctx.violation("SingleAnnotatorWrapper", "timeout", "query did not return within 5 s", rc, what="SingleAnnotatorWrapper: query did not return (n_annotators_per_sample given)")
@@ -413,6 +417,10 @@ def saw_counts(ctx):
                 got.append((int(s_), 1))
         if len(ranking) >= 3 and not isinstance(pref_arg, int):
             ctx.nontriv(("sawcounts", X.tobytes(), y.tobytes(), bs, repr(pref_arg), seed))
+        plist = [tuple(int(v) for v in p_) for p_ in np.asarray(pairs).tolist()]
+        if len(set(plist)) != len(plist):
+            ctx.violation("SingleAnnotatorWrapper", "duplicate_pair", f"pairs {plist} are not pairwise distinct", rc, what="SingleAnnotatorWrapper: a (sample, annotator) pair is returned twice")
+            continue
         if got != exp:
             ctx.violation("SingleAnnotatorWrapper", "annotators_per_sample", f"(sample, number of annotators) in ranking order: returned {got}, documented {exp}; ranking {ranking}, available {mx}", rc,
                           what=f"SingleAnnotatorWrapper: the requested number of annotators per sample is not respected (n_annotators_per_sample={pref_arg}, batch_size={bs})")
